@@ -65,7 +65,8 @@ class Report:
         viol = [i for i in self.instances if not i.ok]
         # A rule that lost one of its anchors (its recogniser reported an analysis error) cannot be trusted on its other instances in this
         # run: those are reported as part of the analysis error (exit 2), not as violations of the property.
-        broken_rules = {e.split(":", 1)[0].strip() for e in self.errors if e[:1] == "R" and ":" in e[:8]}
+        LOST = ("anchor vanished", "(anchor)", "floor", "does not model", "does not cover", "cannot evaluate", "cannot identify", "cannot find", "was not found", "not found in")
+        broken_rules = {e.split(":", 1)[0].strip() for e in self.errors if e[:1] == "R" and ":" in e[:8] and any(k in e for k in LOST)}
         demoted = [i for i in viol if i.rule in broken_rules]
         if demoted:
             viol = [i for i in viol if i.rule not in broken_rules]
